@@ -132,6 +132,8 @@ def check_point(h, p, alg, part):
     enc = enc_rows(alg, rows, opb)
     if h.mode == 'equiv':
         _equiv_point(h, p, alg, part, F, n, rows, opb, enc)
+    elif h.mode == 'custom':
+        h.check(alg, p, F, n, rows, opb, enc, part)
     else:
         _schema_point(h, p, alg, part, F, n, rows, opb, enc)
     part.sample({'harness': h.name, 'params': p, 'nvars': n, 'rows': len(rows)})
@@ -161,6 +163,10 @@ def _equiv_point(h, p, alg, part, F, n, rows, opb, enc):
         part.counts['selftest_mutants'] += 1
         if rr == 'sat':
             part.counts['selftest_distinguished'] += 1
+    sat_and_count(h, p, alg, part, n, enc)
+
+
+def sat_and_count(h, p, alg, part, n, enc):
     need_sat = h.sat_expected is not None or h.count_expected is not None
     if need_sat:
         s = _solver(alg)
@@ -370,4 +376,6 @@ def replay(case):
             if not h.schemas(balg, p, F)[gi][1] or _row(balg, rows[i], opb):
                 return False, 'witness for row %d does not separate' % i
         return True, 'assignment %s violates schema %r; the %d rows it falsifies are each shown not to follow from that schema' % (a, inp.get('_schema_name'), len(fals))
+    if hasattr(h, 'replay_custom'):
+        return h.replay_custom(case, p, F, n, rows, opb)
     return False, 'unknown kind ' + kind
